@@ -282,10 +282,17 @@ func makeTarget(
 		if err != nil {
 			return nil, err
 		}
-		if last := fields[len(fields)-1]; last.IsList() {
+		last := fields[len(fields)-1]
+		if last.IsList() {
 			return nil, fmt.Errorf(
 				"unexpected path variable %q: cannot be a repeated field",
 				variable.fieldPath,
+			)
+		}
+		if !isParameterType(last) {
+			return nil, fmt.Errorf(
+				"unexpected path variable %q: must be a scalar field or a well-known scalar wrapper, not %s",
+				variable.fieldPath, last.Kind(),
 			)
 		}
 		routeTargetVars[i] = routeTargetVar{
